@@ -492,6 +492,22 @@ func reportLoadFailure(prop, tier string, seed int, err error) int {
 
 // specialObligations adds property-specific obligations that are not clause-shaped (filled in per property).
 func specialObligations(w *World, ex *Exec, prop string) {
+	// the lemmas the prelude states as axioms about cat (injectivity) are re-proved from cat's definition on every run
+	if files, _ := filepath.Glob(filepath.Join(verifDir, "spec", "lemmas", "*.smt2")); len(files) > 0 {
+		sort.Strings(files)
+		for _, f := range files {
+			data, err := os.ReadFile(f)
+			if err != nil {
+				continue
+			}
+			text := string(data)
+			if !strings.Contains(text, "(check-sat)") {
+				text += "\n(check-sat)\n"
+			}
+			ex.obls = append(ex.obls, &Obligation{Name: "prelude." + strings.TrimSuffix(filepath.Base(f), ".smt2"), Kind: "model", Props: propSet([]string{prop}),
+				Goal: TFalse, rawText: text, Note: "proof step of a prelude lemma (spec/lemmas/README.md)"})
+		}
+	}
 	if prop == "C18" {
 		c18Obligations(w, ex)
 	}
